@@ -84,7 +84,7 @@ func (c *Ctx) pureRng() *rand.Rand {
 // remember keeps a uniform sample of the stateless calls of this run.
 // volatileOps: ops whose recorded event legitimately differs between two executions of the same call (the block
 // filter builder reports its entries in map order); they take no part in the replay.
-var volatileOps = map[string]bool{"GcsBuilder": true, "BuilderHist": true, "Proof": true, "Robust": true, "CertPair": true}
+var volatileOps = map[string]bool{"GcsBuilder": true, "BuilderHist": true, "Robust": true, "CertPair": true}
 
 func (c *Ctx) remember(a, e Event, dur time.Duration) {
 	if volatileOps[gName(a, "op")] {
